@@ -222,3 +222,60 @@ def readback(msg, t):
         else:
             out.append([_from_py_scalar(mt, e) for e in getattr(msg, n)])
     return {'s': out}
+
+
+# ----------------------------------------------------------------------------- canonical form
+
+def _canon_float(p, bits):
+    """NaN payloads are outside the model (CPython quiets signalling NaNs on float32<->double conversion)"""
+    if p == 'r32' and (bits & 0x7f800000) == 0x7f800000 and (bits & 0x007fffff):
+        return 'nan'
+    if p == 'r64' and (bits & 0x7ff0000000000000) == 0x7ff0000000000000 and (bits & 0x000fffffffffffff):
+        return 'nan'
+    return bits
+
+
+def canon(t, v):
+    """canonical form of a value for comparisons between implementation and model"""
+    k = t['k']
+    if k == 'prim':
+        if t['p'] in ('r32', 'r64') and isinstance(v, int):
+            return _canon_float(t['p'], v)
+        return v
+    if k in ('byte', 'enum'):
+        return v
+    if k == 'union':
+        if not isinstance(v, dict) or 'u' not in v or v['u'] >= len(t['arms']):
+            return v
+        return {'u': v['u'], 'v': canon(t['arms'][v['u']]['t'], v['v'])}
+    if not isinstance(v, dict) or 's' not in v:
+        return v
+    out = []
+    for m, x in zip(t['ms'], v['s']):
+        mt, mk = m['t'], m['mk']
+        if x == 'sizer' or x is None:
+            out.append(x)
+        elif mk == 'plain':
+            out.append(canon(mt, x))
+        elif mk == 'optional':
+            out.append({'p': canon(mt, x['p'])} if isinstance(x, dict) and 'p' in x else x)
+        elif isinstance(x, list):
+            out.append([canon(mt, e) for e in x])
+        else:
+            out.append(x)
+    return {'s': out}
+
+
+def has_nan(t, v):
+    return 'nan' in __import__('json').dumps(canon(t, v))
+
+
+def denan(v):
+    """replace the canonical NaN token by 0 (for requests where only the layout matters)"""
+    if v == 'nan':
+        return 0
+    if isinstance(v, list):
+        return [denan(x) for x in v]
+    if isinstance(v, dict):
+        return {k: denan(x) for k, x in v.items()}
+    return v
